@@ -758,7 +758,7 @@ func init() {
 				return
 			}
 			// quiescence: user list and counters are what the sentinel alone accounts for
-			ok = waitFor(6*time.Second, func() bool {
+			ok = waitFor(30*time.Second, func() bool {
 				st, err := cs.stats()
 				if err != nil {
 					return false
@@ -790,6 +790,6 @@ func init() {
 			c.Sample(map[string]any{"hostile_control": nCtl, "hostile_transfer": nXfer, "stats_after": st})
 			_ = nUsers
 		}
-		x.Add(&Family{Name: "hostile-batch", Quick: 6, Thor: 120, Run: func(c *Case) { run(c, 220, 60) }})
+		x.Add(&Family{Name: "hostile-batch", Quick: 6, Thor: 120, MaxPar: 6, Run: func(c *Case) { run(c, 220, 60) }})
 	}
 }
